@@ -205,13 +205,39 @@ def leanchecker(module):
     return rc == 0, out + err
 
 def lean_driver():
-    return os.path.join(LEAN, ".lake", "build", "bin", "driver")
+    """wrapper `driver <module>` dispatching to the per-part executable drv_<module>"""
+    return os.path.join(LEAN, "driver")
+
+_drivers_built = set()
+
+def ensure_driver(module):
+    """(re)build the executable of one part's driver; cheap when up to date.  One executable per part:
+    a Gen file regenerated for one property cannot break another property's driver."""
+    if module in _drivers_built:
+        return
+    rc, out, err = run(["lake", "build", "drv_" + module], cwd=LEAN, timeout=3600)
+    if rc != 0:
+        raise RuntimeError("lake build drv_%s failed:\n%s" % (module, (out + err)[-3000:]))
+    _drivers_built.add(module)
 
 def run_model(module, text, timeout=3600):
+    ensure_driver(module)
     rc, out, err = run([lean_driver(), module], inp=text, timeout=timeout)
     if rc != 0:
         raise RuntimeError("lean driver %s failed rc=%s: %s" % (module, rc, err[-2000:]))
     return out.split("\n")[:-1] if out.endswith("\n") else out.split("\n")
+
+def drivers_used_by(pymodule):
+    """protocol names a part module talks to (scanned from its source)"""
+    import inspect
+    try:
+        src = inspect.getsource(pymodule)
+    except Exception:
+        return []
+    names = set(re.findall(r'run_model\(\s*"(\w+)"', src)) | set(re.findall(r'lean_driver\(\)\s*,\s*"(\w+)"', src))
+    if re.search(r"\bminiald\b", src):
+        names.add("miniald")
+    return sorted(names)
 
 # ---------------------------------------------------------------------------------------
 # check context: evidence, violations, known findings
@@ -276,7 +302,7 @@ class Ctx:
         """build the Lean targets, audit the theorem list. Returns True when every
         obligation is discharged."""
         self.obligations = list(theorems)
-        ok, log, wall = lean_build(list(build_targets) + ["driver"])
+        ok, log, wall = lean_build(list(build_targets))
         self.cov["lean_build_s"] = round(wall, 1)
         self.cov["checker_cmd"] = "cd /verif/lean && lake build %s && lake env lean <#print axioms of every listed theorem>" % " ".join(build_targets)
         if not ok:
@@ -440,8 +466,15 @@ def run_parts(ctx, parts, need_build=True, hooks=True):
     proved = ctx.prove(targets, theorems)
     ctx.trusted.append("source fingerprints: %s" % source_fingerprint(srcs))
     ctx.trusted.append("correspondence drivers under /verif/harness and lean/AldorVerif/Driver, python oracles in checks/parts")
-    if proved or os.path.exists(lean_driver()):
+    if True:
         for p in parts:
+            for d in drivers_used_by(p):
+                try:
+                    ensure_driver(d)
+                except RuntimeError as e:
+                    if d != "miniald":
+                        raise
+                    ctx.notes.append("miniald driver unavailable: %s" % str(e)[-300:])
             before = len(ctx.corr_broken)
             try:
                 p.run_part(ctx, build)
